@@ -6,6 +6,8 @@ pub mod stream_executor;
 pub mod mutiny_stream;
 pub mod prelude;
 pub mod types;
+#[cfg(feature = "verif")]
+pub mod verif;
 
 mod instruments;
 
